@@ -394,7 +394,8 @@ class Histogram1D(ObjectWithBinning, HistogramBase):
         Note: If a gap in unconsecutive bins is matched, underflow & overflow are not valid anymore.
         Note: Name was selected because of the eponymous method in ROOT
         """
-        self._coerce_dtype(type(weight))
+        # (A numpy integer counts like a python one: in 64 bits)
+        self._coerce_dtype(np.int64 if isinstance(weight, np.integer) else type(weight))
         if self._binning.is_adaptive():
             bin_map = self._binning.force_bin_existence(value)
             self._reshape_data(self._binning.bin_count, bin_map)
@@ -454,12 +455,12 @@ class Histogram1D(ObjectWithBinning, HistogramBase):
         (frequencies, errors2, underflow, overflow, stats) = calculate_1d_frequencies(
             values_array,
             self._binning,
-            dtype=self.dtype,
+            # (A batch may exceed a compact integer type on its own)
+            dtype=np.int64 if self.dtype.kind in "iu" else self.dtype,
             weights=weights_array,
             validate_bins=False,
         )
-        self._frequencies += frequencies
-        self._errors2 += errors2
+        self._add_contents(frequencies, errors2)
         # TODO: check that adaptive does not produce under-/over-flows?
         if self.keep_missed:
             self.underflow += underflow
